@@ -98,6 +98,12 @@ class C19(PropBase):
     def gen_ctx(self, rng, centre):
         if rng.chance(1, 3):
             return None
+        if rng.chance(1, 5):
+            # a cluster of k registers within the "nearby" distance of one low-bit candidate
+            cand = centre ^ (1 << rng.below(12))
+            k = rng.range(0, 17)
+            vals = [((cand + rng.range(-4096, 4096)) & U64) if i < k else rng.choice([0, 1, rng.below(1 << 64)]) for i in range(17)]
+            return vals
         vals = []
         for _ in range(17):
             st = rng.below(6)
@@ -138,6 +144,14 @@ class C19(PropBase):
                 a = centre
             a &= U64
             ctx = self.gen_ctx(rng, a)
+            if regs and rng.chance(1, 6):
+                # many registers near a candidate that will really be reported
+                r = rng.choice(regs)
+                cand = (r[0] + rng.below(64)) & U64
+                a = cand ^ (1 << rng.below(64))
+                k = rng.range(0, 17)
+                ctx = [((cand + rng.range(-4096, 4096)) & U64) if i < k else rng.choice([0, 1, rng.below(1 << 64)]) for i in range(17)]
+                dist["clustered"] = dist.get("clustered", 0) + 1
             reg = rng.range(-1, 16)
             br = rng.below(3)
             op = rng.below(4)
@@ -162,6 +176,16 @@ class C19(PropBase):
             excaddr = centre if rng.chance(1, 2) else rng.below(1 << 47)
             ctx = self.gen_ctx(rng, centre)
             instr = rng.choice(INSTRS) if ctx is not None else "-"
+            if cpu == 1 and regs and rng.chance(1, 4):
+                # register pass: the operand register of a planted instruction is one bit away from a region
+                instr, ridx = rng.choice([("8a0424", 7), ("488b00", 0), ("488b4308", 3), ("ff20", 0)])
+                if ctx is None:
+                    ctx = [rng.below(1 << 47) for _ in range(17)]
+                r = rng.choice(regs)
+                ctx[ridx] = ((r[0] + rng.below(32)) ^ (1 << rng.below(48))) & U64
+                ctx[16] = rng.below(1 << 40) | 0x10000       # rip somewhere unmapped by the map list
+                os_, code, nparams, info0 = 0, 0xC0000005, 2, rng.choice([0, 1, 8])
+                dist["register_pass"] = dist.get("register_pass", 0) + 1
             if cpu == 0:
                 if ctx is not None:
                     ctx = [v & 0xffffffff for v in ctx]
